@@ -144,6 +144,18 @@ def check(chk: Check) -> None:
                 nm_ = x.targets[0].id
                 loads = [y for y in walk_no_nested(node) if isinstance(y, ast.Name) and y.id == nm_
                          and isinstance(y.ctx, ast.Load)]
+                # deliberate partial consumption: a ``for`` over it that is left by ``break``, or
+                # ``next(it)``, leaves the rest for the next consumer
+                partial_ = 0
+                for y in loads:
+                    par_ = getattr(y, "_parent", None)
+                    if isinstance(par_, ast.For) and par_.iter is y and any(
+                            isinstance(b_, ast.Break) for s_ in par_.body for b_ in ast.walk(s_)):
+                        partial_ += 1
+                    elif isinstance(par_, ast.Call) and isinstance(par_.func, ast.Name) and par_.func.id == "next" \
+                            and par_.args and par_.args[0] is y:
+                        partial_ += 1
+                loads = loads[:max(0, len(loads) - partial_)] if partial_ else loads
                 chk.rule("R00.4", "a local bound to a one-shot iterator (generator, chain, map, ...) is consumed at "
                                   "most once: a second consumer sees it exhausted")
                 chk.ob("R00.4", "%s:one-shot(%s)" % (q, nm_), len(loads) <= 1, f.loc(x),
